@@ -2,10 +2,10 @@
 """Evaluate a seeded regression against the registered checks.
 
   seed_eval.py import <name> <dir-with-_deliver> <property> [needs...]   copy patch/demo/notes into /verif/seeded/<name>/ after confirming
-  seed_eval.py run <name> [properties...]                                 apply to /repo, run the quick checks, undo, record the outcome
+  seed_eval.py run <name> [properties...]                                 apply to a scratch worktree of /repo's HEAD, run the quick checks against it (VERIF_REPO), record
+  seed_eval.py patch <file.diff> <properties...>                          the same for any patch, nothing recorded
 
-Nothing is ever committed to /repo; the patch is applied with `git apply` and undone with
-`git checkout -- .` straight afterwards (also on failure)."""
+/repo itself is never modified: the change lives in a scratch worktree that is removed afterwards."""
 from __future__ import annotations
 
 import json
@@ -66,48 +66,63 @@ def cmd_import(name, src, prop, needs):
     return 0 if ok else 1
 
 
-def cmd_run(name, props):
+SCRATCH = "/tmp/verif_evalrepo"
+
+
+def cmd_run(name, props, patch=None, record=True):
+    """apply the change to a scratch worktree of /repo's HEAD (never to /repo itself), point the checks at it with VERIF_REPO, run, remove it"""
     dst = os.path.join(SEEDED, name)
-    meta = json.load(open(os.path.join(dst, "meta.json")))
+    meta = {}
+    if record:
+        meta = json.load(open(os.path.join(dst, "meta.json")))
     if not props:
         props = [meta["breaks_property"]]
-    if not repo_clean():
-        print("refusing: /repo has uncommitted changes")
-        return 2
-    rc, out = sh(["git", "-C", REPO, "apply", os.path.join(dst, "patch.diff")])
+    patch = patch or os.path.join(dst, "patch.diff")
+    sh(["git", "-C", REPO, "worktree", "remove", "--force", SCRATCH])
+    rc, out = sh(["git", "-C", REPO, "worktree", "add", "--detach", SCRATCH, "HEAD"])
     if rc != 0:
-        print("patch does not apply:", out)
+        print("cannot create scratch worktree:", out)
         return 2
     results = {}
     try:
+        rc, out = sh(["git", "-C", SCRATCH, "apply", patch])
+        if rc != 0:
+            print("patch does not apply:", out)
+            return 2
+        env = dict(os.environ, VERIF_REPO=SCRATCH)
         for p in props:
             t = time.time()
-            rc, out = sh([os.path.join(VERIF, "check"), p, "--tier", "quick"], cwd=VERIF, timeout=1800)
+            rc, out = sh([os.path.join(VERIF, "check"), p, "--tier", "quick"], cwd=VERIF, timeout=1800, env=env)
             lines = [l for l in out.splitlines() if l.startswith("VIOLATION") or l.startswith("KNOWN-FINDING") or l.startswith(p + " tier")]
-            replay = None
             what = None
             for l in lines:
                 if l.startswith("VIOLATION") and "replay=" in l:
                     replay = l.split("replay=")[1].split()[0]
                     try:
-                        what = json.load(open(os.path.join(VERIF, replay))).get("what")
+                        rp = json.load(open(os.path.join(VERIF, replay)))
+                        what = rp.get("what") or "; ".join(rp.get("broken_obligations", []))[:300]
                     except Exception:  # noqa: BLE001
                         pass
                     break
             results[p] = {"exit": rc, "detected": rc == 1, "lines": [l[:300] for l in lines], "what": what, "wall_s": round(time.time() - t, 1)}
-            print(p, "exit", rc, "|", (what or "")[:160])
+            print(p, "exit", rc, "|", (what or "")[:200])
             for l in lines:
                 print("   ", l[:200])
     finally:
-        sh(["git", "-C", REPO, "checkout", "--", "."])
-    meta.setdefault("checks", {}).update(results)
-    with open(os.path.join(dst, "meta.json"), "w") as fh:
-        json.dump(meta, fh, indent=1)
-    # evidence files were rewritten by the mutated runs: they are restored by re-running on the clean tree by the caller
+        sh(["git", "-C", REPO, "worktree", "remove", "--force", SCRATCH])
+        sh(["git", "-C", REPO, "worktree", "prune"])
+    if record:
+        meta.setdefault("checks", {}).update(results)
+        with open(os.path.join(dst, "meta.json"), "w") as fh:
+            json.dump(meta, fh, indent=1)
+    # evidence files were rewritten by the mutated runs: the caller restores them by re-running on the clean tree
     return 0
 
 
 if __name__ == "__main__":
     if sys.argv[1] == "import":
         sys.exit(cmd_import(sys.argv[2], sys.argv[3], sys.argv[4], " ".join(sys.argv[5:])))
+    if sys.argv[1] == "patch":
+        # seed_eval.py patch <file.diff> <properties...>: run the checks against an arbitrary change without recording anything
+        sys.exit(cmd_run("adhoc", sys.argv[3:], patch=sys.argv[2], record=False))
     sys.exit(cmd_run(sys.argv[2], sys.argv[3:]))
